@@ -62,6 +62,12 @@ check('C19', 'E1 explicit-state BFS over the real screen object x reference grid
       'reference grid written from the docstrings; doc-silent behaviours are pinned and listed in the evidence assumptions',
       'DESIGN.md 3 C19')
 
+check('C06', E2,
+      'stateless exhaustive schedule exploration (DFS over every placement of the peer\'s actions between the reader\'s intercepted system calls; no preemption bound for scripts <= 4 actions) on real pty/pipe/socket objects with a simulated process table',
+      'For every transport and configuration, every interleaving of write/write/hang-up/exit with the reader\'s poll/read/waitpid/timed-wait/queue/reader-thread steps is executed; the returned bytes must equal the written bytes, EOF only after all of them, chunk <= size, socket timeout restored.',
+      'scheduling granularity = intercepted calls; pty data is served from a harness-side buffer (raw mode) because kernel pty delivery is asynchronous and not deterministic; process table simulated (validated against the kernel); large outputs only with deviation bound 1',
+      'DESIGN.md 3 C06')
+
 NOT_BUILT = {}
 
 
@@ -106,6 +112,8 @@ def main():
         'engines': [
             {'name': 'E1', 'path': 'mc/explore.py', 'serves_properties': sorted(CHECKS),
              'kind_free_text': 'hand-written stateless deviation-bounded DFS + explicit-state BFS over the real code'},
+            {'name': 'E2', 'path': 'mc/env.py', 'serves_properties': ['C04', 'C05', 'C06', 'C07', 'C08', 'C09', 'C10', 'C11', 'C12', 'C14', 'C15', 'C16', 'C17'],
+             'kind_free_text': 'controlled environment: real pty/pipe/socket peers held by the harness, os/time/select names interposed in the pexpect and ptyprocess namespaces, virtual clock, simulated process table, baton reader thread'},
             {'name': 'E3', 'path': 'mc/script_spawn.py', 'serves_properties': ['C01', 'C02', 'C03', 'C04', 'C20'],
              'kind_free_text': 'SpawnBase subclass whose read_nonblocking is answered by the explorer'},
         ],
